@@ -200,6 +200,7 @@ class Real:
         self.especs = []        # list of spec dicts per expression
         self.models = []        # real model objects
         self.intent = []        # dict(cls, gvar, mset, sk, terms=[spec dict])
+        self.stale = set()      # fitted models whose terms were assigned (gam.terms = e) since their last fit
 
     # ---- construction helpers
     def term(self, sp):
@@ -580,6 +581,7 @@ def run_history(args):
         iters = real.loglen(m) - l0
         after = snapshot()
         it['last'] = d
+        real.stale.discard(j)
         check_frame('F', before, after, j, False, 'fit(%d, data %d)' % (j, d))
         fresh_check(j, d, 'fit(%d, data %d)' % (j, d), warm, iters)
         cnt('fit', 'refit' if warm else 'first')
@@ -602,7 +604,7 @@ def run_history(args):
         check_frame('Q', before, after, j, True, '%s(%d, data %d)' % (q, j, d))
         fitted = hasattr(m, 'coef_')
         cnt('query', q + ('' if fitted else ' (unfitted)'))
-        return 'Q %s %d %d' % (q, j, d), j, ('query', exc, fitted)
+        return 'Q %s %d %d' % (q, j, d), j, ('query', exc, fitted, j in real.stale)
 
     def do_sample():
         j = pick_model(lambda j: hasattr(real.models[j], 'coef_')) if rng.random() < 0.85 else pick_model()
@@ -626,7 +628,7 @@ def run_history(args):
         check_frame('S', before, after, j, True, 'sample(%d, data %d, n_bootstraps=%d)' % (j, d, nb + 1))
         cnt('sample bootstraps', nb + 1)
         inner = ' '.join(['11 ' + ' '.join(['9 1'] * 11) + ' 0'] * nb)
-        return ('S %d %d %d %s' % (j, d, nb, inner)).strip(), j, ('query', exc, hasattr(m, 'coef_'))
+        return ('S %d %d %d %s' % (j, d, nb, inner)).strip(), j, ('query', exc, hasattr(m, 'coef_'), j in real.stale)
 
     def do_grid():
         j = pick_model()
@@ -671,6 +673,8 @@ def run_history(args):
         if keep:
             widx = j if (fitted and bi == 0) else first + (bi - 1 if fitted else bi)
             real.intent[j] = copy.deepcopy(real.intent[widx])
+            if widx != j:
+                real.stale.discard(j)
         after_all = snapshot()
         after = (after_all[0][:len(before[0])], after_all[1])
         is_query = fitted and not keep
@@ -721,6 +725,34 @@ def run_history(args):
         cnt('set_params', 'spline_order ' + ('fitted' if hasattr(m, 'coef_') else 'unfitted'))
         return 'SO %d %d' % (j, c), j, 'set'
 
+    def do_assign(j=None, e=None):
+        """gam.terms = expr / gam.set_params(terms=expr): the same caller-held expression object may go to several models"""
+        if j is None:
+            j = pick_model()
+        if j is None:
+            return None
+        if e is None:
+            e = rng.randrange(len(real.exprs))
+        m = real.models[j]
+        expr = real.exprs[e]
+        if not isinstance(expr, pygam.terms.TermList):
+            # (a bare Term is only wrapped by the constructor; assigning one makes fit raise TypeError - outside C15)
+            expr = pygam.terms.TermList(expr)
+        before = snapshot()
+        how = rng.choice(['attr', 'set_params'])
+        cur['desc'] = 'assign terms of model %d := expression %d (%s)' % (j, e, how)
+        if how == 'attr':
+            m.terms = expr
+        else:
+            m.set_params(terms=expr)
+        real.intent[j]['terms'] = copy.deepcopy(real.especs[e])
+        if hasattr(m, 'coef_'):
+            real.stale.add(j)
+        after = snapshot()
+        check_frame('AT', before, after, j, False, cur['desc'])
+        cnt('assign terms', how + (' fitted' if hasattr(m, 'coef_') else ' unfitted'))
+        return 'AT %d %d' % (j, e), j, 'set'
+
     def do_setmodel():
         j = pick_model()
         if j is None:
@@ -747,6 +779,8 @@ def run_history(args):
         c = copy.deepcopy(m) if how == 'deepcopy' else pickle.loads(pickle.dumps(m))
         real.models.append(c)
         real.intent.append(copy.deepcopy(real.intent[j]))
+        if j in real.stale:
+            real.stale.add(len(real.models) - 1)
         aa = snapshot()
         after = (aa[0][:len(before[0])], aa[1])
         check_frame('CP', before, after, None, False, '%s(%d)' % (how, j))
@@ -756,8 +790,16 @@ def run_history(args):
         return 'CP %d' % j, None, 'alloc'
 
     menu = [(do_fit, 8), (do_query, 4), (do_grid, 3), (do_setlam, 3), (do_setorder, 2), (do_setmodel, 1), (do_copy, 2),
-            (do_sample, 1.5), (do_construct, 1.5), (do_mkexpr, 0.7), (do_join, 0.7)]
+            (do_sample, 1.5), (do_construct, 1.5), (do_mkexpr, 0.7), (do_join, 0.7), (do_assign, 2.5)]
     script = [do_mkexpr, do_construct, do_construct, do_fit]
+    if k % 3 == 1:
+        # one expression handed to two already constructed models, which are then fitted on different data
+        script = [do_mkexpr, do_construct, do_construct, do_mkexpr,
+                  lambda: do_assign(0, len(real.exprs) - 1), lambda: do_assign(1, len(real.exprs) - 1)]
+        if rng.random() < 0.5:
+            script.append(do_setlam)
+        script += [do_fit, do_fit, do_query]
+        nops = max(nops, len(script))
     aborted = False
     while len(ops) < nops and not aborted:
         fn = script.pop(0) if script else rng.choices([f for f, _ in menu], [w for _, w in menu])[0]
@@ -765,7 +807,7 @@ def run_history(args):
             r = fn()
         except Exception as e:  # an exception of a valid public call is reported, the history stops there
             import traceback
-            fails.append(dict(kind='call-raised', op=fn.__name__ + ' ' + cur['desc'], step=len(steps), exc=type(e).__name__, msg=str(e)[:300],
+            fails.append(dict(kind='call-raised', op=getattr(fn, '__name__', 'op') + ' ' + cur['desc'], step=len(steps), exc=type(e).__name__, msg=str(e)[:300],
                               tb=traceback.format_exc()[-600:], property_level=True))
             break
         if r is None:
@@ -775,7 +817,8 @@ def run_history(args):
             aborted = True
             break
         ops.append(toks)
-        steps.append(dict(op=toks, target=target, kind=kind, obs=[real.observe(j) for j in range(len(real.models))]))
+        steps.append(dict(op=toks, target=target, kind=kind,
+                          obs=[dict(real.observe(j), stale=(j in real.stale)) for j in range(len(real.models))]))
     env = '%d %d %s' % (len(sets), NF, ' '.join('%d %d %d' % r for r in krows))
     line = 'C15 hist %s | %s' % (env, ' ; '.join(ops))
     return dict(k=k, line=line, ops=ops, steps=steps, fails=fails, notes=notes, counts=counts,
@@ -831,16 +874,21 @@ def compare_history(ctx, st_state, st_out, rec, modelline):
                 dis.append('step %d (%s) model %d: log length %s vs real %s' % (si, step['op'], j, mm['loglen'], ro['loglen']))
             if ro['scale_set'] is not None and (mm['known'] or mm['sid'] >= 0) != ro['scale_set']:
                 dis.append('step %d (%s) model %d: scale set %s vs real %s' % (si, step['op'], j, mm['known'] or mm['sid'] >= 0, ro['scale_set']))
-            if ro['fitted'] and ro['coef_len'] is not None and mm['fitted']:
+            if ro['fitted'] and ro['coef_len'] is not None and mm['fitted'] and not ro.get('stale'):
                 mc = sum((1 if a == 'L' else d) for (a, b, c, d, e) in mm['terms'])
                 if mc != ro['coef_len'] or mm['ncoef'] != mc:
                     dis.append('step %d (%s) model %d: n_coefs %s vs len(coef_) %s' % (si, step['op'], j, mc, ro['coef_len']))
         kind = step['kind']
         if isinstance(kind, tuple) and kind[0] == 'query':
-            _, exc, fitted = kind
+            _, exc, fitted, stale = kind
             m_err = out.startswith('error')
-            ctx.case(st_out, dict(op=step['op'].split()[0], fitted=fitted), nontrivial=not fitted)
-            if m_err != (exc is not None):
+            ctx.case(st_out, dict(op=step['op'].split()[0], fitted=fitted, stale=stale), nontrivial=(not fitted) or stale)
+            if stale and fitted:
+                # a fitted model between `gam.terms = e` and its next fit reads un-compiled term objects: the model says
+                # `error` when some term has no knots (what is raised is accidental); otherwise the outcome is not mirrored
+                # (and e.g. summary() of linear-only terms succeeds): the outcome is recorded, not compared; purity is checked
+                ctx.count('query on a fitted model between assignment and refit: model %s / real' % ('error' if m_err else 'result'), exc)
+            elif m_err != (exc is not None):
                 dis.append('step %d (%s): model outcome %s vs real exception %s' % (si, step['op'], out, exc))
             elif exc is not None and exc != 'AttributeError':
                 dis.append('step %d (%s): unfitted query raised %s, expected AttributeError' % (si, step['op'], exc))
@@ -1464,11 +1512,18 @@ def make_pool(ctx):
 def run(ctx):
     pygam = common.import_pygam()
     ctx.extra['rule'] = ('random call histories (ops: new expression, e1+e2, construct from a shared expression, fit on one of 6 data sets, '
-                         'six kinds of query, sample, gridsearch(keep_best T/F), set_params(lam / spline_order / tol,max_iter), deepcopy / pickle) '
+                         'six kinds of query, sample, gridsearch(keep_best T/F), set_params(lam / spline_order / tol,max_iter), deepcopy / pickle, '
+                         'gam.terms = expr / set_params(terms=expr) with one expression handed to several models) '
                          'over the 7 model classes; distinct = distinct op sequences; non-trivial = at least two live models and at least one fit; '
                          'array stream: class x memory layout; row-wise stream: class x term mix x index set')
     ctx.assumptions.append('PIRLS reaches the optimum determined by (settings, compiled terms, data) from any start: measured on every refit / '
                            'warm-started candidate against a brand-new model (1e-10 for normal/identity, 20*tol otherwise)')
+    ctx.partial.append('known limitation (outside the quantifier of the property: no call of the property hands one object to two models): a '
+                       'Distribution INSTANCE passed to two generic GAMs is kept by reference (GAM._validate_params does not copy), so '
+                       'fitting one rewrites the other\'s distribution.scale (loglikelihood / sample / prediction intervals, not predictions); '
+                       'the Heap model gives every constructed model a distribution object of its own')
+    ctx.assumptions.append('queries on a fitted model between `gam.terms = e` and its next fit read un-compiled term objects: modelled as an '
+                           'error when some term has no knots; what the code raises or returns there is accidental (AttributeError / AssertionError / IndexError / a number), so the outcome is recorded but not compared, only purity is checked')
     ctx.assumptions.append('NumPy aliasing of caller arrays and row-wise evaluation of the numerical code are outside the Lean model: checked on the real code only')
     pool = make_pool(ctx)
     try:
